@@ -363,7 +363,7 @@ func (engine) Body(r *simdrv.Run) {
 	w.interval = times[1+r.Cfg(3)]
 	perTimeout := times[r.Cfg(len(times))]
 	w.perTemp = []metricdata.Temporality{metricdata.DeltaTemporality, metricdata.CumulativeTemporality}[r.Cfg(2)]
-	viewMode := r.Cfg(7) // 5: drop view in front of a keeping view on one instrument, 6: three views of which two non-adjacent ones yield the same stream; 0 none, 1 filter on counter_i, 2 rename counter_f + drop hist, 3 two views on updown, 4 histogram re-aggregated as a (renamed) sum
+	viewMode := r.Cfg(8) // 7: wildcard name + kind criterion (filter on up-down counters only), 5: drop view in front of a keeping view on one instrument, 6: three views of which two non-adjacent ones yield the same stream; 0 none, 1 filter on counter_i, 2 rename counter_f + drop hist, 3 two views on updown, 4 histogram re-aggregated as a (renamed) sum
 	w.bounds = []float64{1, 4, 16, 256, 65536}
 
 	// instruments
@@ -390,6 +390,8 @@ func (engine) Body(r *simdrv.Run) {
 			in.asSum = true
 		case viewMode == 3 && k == kUpDownI:
 			in.streams = []stream{{name: "updown_by_a", keep: []string{"a"}}, {name: "updown_all"}}
+		case viewMode == 7 && k == kUpDownI:
+			in.streams = []stream{{name: in.name, keep: []string{"a"}}}
 		}
 		w.insts = append(w.insts, in)
 	}
@@ -482,6 +484,22 @@ func (engine) Body(r *simdrv.Run) {
 	rd := sdkmetric.NewManualReader(sdkmetric.WithTemporalitySelector(deltaSel))
 	rc := sdkmetric.NewManualReader()
 	opts := []sdkmetric.Option{sdkmetric.WithReader(rd), sdkmetric.WithReader(rc)}
+	if r.Cfg(4) == 0 {
+		// a misconfigured reader registered in front of the two that are read: its aggregation selector asks
+		// for a last-value aggregation of counters and histograms, which the SDK rejects at instrument
+		// creation - for that reader only; the other readers must still receive every measurement
+		// (after seeded change C02-d)
+		bad := sdkmetric.NewManualReader(sdkmetric.WithAggregationSelector(func(k sdkmetric.InstrumentKind) sdkmetric.Aggregation {
+			switch k {
+			case sdkmetric.InstrumentKindCounter, sdkmetric.InstrumentKindHistogram, sdkmetric.InstrumentKindUpDownCounter:
+				return sdkmetric.AggregationLastValue{}
+			}
+			return sdkmetric.DefaultAggregationSelector(k)
+		}))
+		opts = []sdkmetric.Option{sdkmetric.WithReader(bad), sdkmetric.WithReader(rd), sdkmetric.WithReader(rc)}
+		r.Fault("reader-with-incompatible-aggregation")
+		r.Res.Config["misconfigured_reader"] = true
+	}
 	var pr *sdkmetric.PeriodicReader
 	if usePeriodic {
 		pr = sdkmetric.NewPeriodicReader(&exporter{w: w}, sdkmetric.WithInterval(w.interval), sdkmetric.WithTimeout(perTimeout))
@@ -505,6 +523,9 @@ func (engine) Body(r *simdrv.Run) {
 			sdkmetric.NewView(sdkmetric.Instrument{Name: "counter_i"}, sdkmetric.Stream{}),
 			sdkmetric.NewView(sdkmetric.Instrument{Name: "counter_i"}, sdkmetric.Stream{Name: "counter_i_renamed"}),
 			sdkmetric.NewView(sdkmetric.Instrument{Name: "counter_*", Kind: sdkmetric.InstrumentKindCounter}, sdkmetric.Stream{})))
+	case 7:
+		// every instrument matches the name pattern, only the up-down counter matches the kind (after seeded change C12-d)
+		opts = append(opts, sdkmetric.WithView(sdkmetric.NewView(sdkmetric.Instrument{Name: "*", Kind: sdkmetric.InstrumentKindUpDownCounter}, sdkmetric.Stream{AttributeFilter: keepA})))
 	case 4:
 		opts = append(opts, sdkmetric.WithView(sdkmetric.NewView(sdkmetric.Instrument{Name: "hist_i"}, sdkmetric.Stream{Name: "hist_as_sum", Aggregation: sdkmetric.AggregationSum{}})))
 	case 3:
